@@ -73,7 +73,7 @@ CHECKS = {
                      "+ must-pass-through write + finite force table",
         "text": "For every existing actions file and grammar: the parsed item list can only be appended to (complete set of "
                 "&mut accesses), every append is on the not-contained edge of a lookup of the item's own name in the right "
-                "set, the collector records every item kind under the set the guards consult, parse-existing <=> exists and "
+                "set and of no other item's name, the collector records every item kind under the set the guards consult, parse-existing <=> exists and "
                 "not force, every Ok path writes unparse(ast) to the checked path, single writer and single guarded caller. "
                 "Structural, for all inputs; does not execute the generator.",
         "note": "Trusted: rustc MIR and Rust's aliasing rules (mutation needs &mut; syn::File has no interior mutability); "
@@ -88,7 +88,8 @@ CHECKS = {
         "text": "Every panic-capable construct in the runtime crate that is reachable from the public API is enumerated from "
                 "MIR and must be class-discharged, discharged by a dominating guard on the same terms, or match an exact row "
                 "of the audited triage table; plus progress guards of the retry loops, char-boundary provenance of lexer "
-                "offsets, layout-parser constants, GSS index validity. A new unwrap/index/slice/arith site or a removed "
+                "offsets, layout-parser constants, GSS index validity, and that generated actions() never hands out Action::Error (backs the `cannot happen` arms)."
+                " A new unwrap/index/slice/arith site or a removed "
                 "guard is reported with its call site. Totality is decided modulo the listed invariants; termination of the "
                 "main loops is not decided.",
         "note": "Trusted: rustc MIR (debug-assertion build of the generic code, pre-monomorphisation); invariant rows of "
@@ -103,7 +104,7 @@ CHECKS = {
         "text": "Every panic-capable construct of the compiler reachable from process_grammar/process_dir/generate_parser/"
                 "rcomp::main is enumerated from MIR and is class-discharged, guard-discharged, an audited invariant or a "
                 "listed (reproduced) finding; invariants that rest on other code are backed by rules (diagnostics still "
-                "returned as Err, symbol-table inserts guarded, identifiers validated, recogniser check over every terminal, "
+                "returned as Err, symbol-table inserts guarded, identifiers validated (and check_identifier looks at the whole name), recogniser check over every terminal, "
                 "no_match table, trait overrides). A new unwrap/assert/index or a weakened check is reported with its site.",
         "note": "Trusted: rustc MIR; invariant rows of rules/tables/panic_compiler.json are human judgements with reasons; "
                 "third-party crates (syn, prettyplease, clap) out of scope; termination not decided.",
@@ -155,7 +156,7 @@ CHECKS = {
         "level": "other",
         "ref": "DESIGN.md §5 C02",
         "technique": 'argument provenance and ordering rules over MIR by path simulation (LR driver, stacks, builder), finite decision table of next_token, structural rules on table construction and generated STOP recognisers',
-        "text": "Decides necessary structural clauses of 'the tree is a derivation of the consumed input': Reduce cells are (prod, position) of reducing items; cells only mutated by allowed operations; the LR driver pops/gotos/pushes/calls the builder with the table's (prod, len) and shifts the token that selected the action; stacks split exactly and keep order; result is the top of the builder stack; complete next_token table (synthetic STOP only under partial_parse and STOP expected); generated STOP recogniser matches only at the end. Partial: not the language, not the gotos.",
+        "text": "Decides necessary structural clauses of 'the tree is a derivation of the consumed input': Reduce cells are (prod, position) of reducing items; cells only mutated by allowed operations; the LR driver pops/gotos/pushes/calls the builder with the table's (prod, len) and shifts the token that selected the action; stacks split exactly and keep order; result is the top of the builder stack; complete next_token table (synthetic STOP only under partial_parse and STOP expected); generated STOP recogniser matches only at the end; the LR loop answers Ok only through Accept. Partial: not the language, not the gotos.",
         "note": 'Trusted: rustc MIR of the generic runtime (pre-monomorphisation); user builders follow the LRBuilder protocol.',
     },
     "C12": {
@@ -163,7 +164,7 @@ CHECKS = {
         "level": "other",
         "ref": "DESIGN.md §5 C12",
         "technique": 'finite decision table of the LR error path, argument provenance of the error value, ordering rules, GLR error-path rules by path simulation',
-        "text": "Decides where the reported offset and expected set come from (LR and GLR), that whitespace is skipped before the position is read, that errors are neither swallowed nor invented and Ok is only reached through Accept. Partial: does not decide that the table's error cells are exactly the non-viable prefixes, nor line/column arithmetic.",
+        "text": "Decides where the reported offset and expected set come from (LR and GLR), that whitespace is skipped before the position is read, that errors are neither swallowed nor invented, Ok is only reached through Accept, and that nothing but parse(), the LR shift and the whitespace skip writes the position (who-may-write). Partial: does not decide that the table's error cells are exactly the non-viable prefixes, nor line/column arithmetic.",
         "note": 'Trusted: rustc MIR; the table itself (C01/C04 territory).',
     },
     "C13": {
@@ -211,7 +212,7 @@ CHECKS = {
         "level": "other",
         "ref": "DESIGN.md §5 C01",
         "technique": "textbook-rule comparison of the table pipeline's decision points (FIRST, closure, propagation, fixpoint loops, phase order) extracted from MIR by path simulation; LR driver agreement",
-        "text": 'Language equality is NOT decided. Decides the decision points at which lookahead regressions land, each against the textbook rule: phase order, fixpoint loops cannot stop early, lookahead sets only grow, FIRST of a string and every production contributes, the LR(1) closure lookahead rule, successor states and registration, propagation links/direction/source, LR rejects conflicts, and that the LR driver does what the cell says.',
+        "text": 'Language equality is NOT decided. Decides the decision points at which lookahead regressions land, each against the textbook rule: phase order, fixpoint loops cannot stop early, lookahead sets only grow, FIRST of a string and every production contributes, the LR(1) closure lookahead rule, successor states and registration, propagation links/direction/source (closure refreshed in every round), state merging (core-equal, all-or-nothing, every reducing item tested against every other item), LR rejects conflicts (every cell of every state looked at), and that the LR driver does what the cell says.',
         "note": 'Trusted: rustc MIR; the textbook rules (Aho et al.; DeRemer/Pennello) as oracle. That the rules iterated yield the LALR(1)/Pager automaton is not decided.',
     },
     "C04": {
@@ -219,8 +220,8 @@ CHECKS = {
         "level": "other",
         "ref": "DESIGN.md §5 C04",
         "technique": 'structural rules on merge/identity/propagation/right-nulling of the table builder against the definitions, extracted from MIR by path simulation',
-        "text": 'Equality with canonical LR(1) is NOT decided. Decides where `same core, same transitions, lookaheads neither lost nor invented, only right-nulled extras` is implemented: merge only equal cores, guarded scan, all-or-nothing, items paired soundly; core identity; propagation into kernel items from all source items along GOTO and SHIFT; fixpoints cannot stop early; right-nulled lengths only for LALR_RN and only past rn_len; LR rejects conflicts.',
-        "note": 'Trusted: rustc MIR. The weak-compatibility predicate of the Pager merge is not decided.',
+        "text": 'Equality with canonical LR(1) is NOT decided. Decides where `same core, same transitions, lookaheads neither lost nor invented, only right-nulled extras` is implemented: merge only equal cores, guarded scan, all-or-nothing, items paired soundly; core identity; propagation into kernel items from all source items along GOTO and SHIFT; FIRST and the closure lookahead rule (FIRST of the whole rest; shared with C01); fixpoints cannot stop early; right-nulled lengths only for LALR_RN and only past rn_len; LR rejects conflicts.',
+        "note": 'Trusted: rustc MIR. Of the weak-compatibility test only its quantification (which item pairs are tested) is decided, not the set algebra of the test itself.',
     },
     "C09": {
         "engine": "mirfacts",
